@@ -22,15 +22,18 @@ inductive Phase
 deriving DecidableEq
 
 /-- `Shape ph tr`: the trace (newest first) is a sequence of complete invocation blocks — either
-`[ret id false]` alone, or effects of one `id` followed by its one event and `ret id true` —
-followed, when `ph ≠ idle`, by what the invocation still in progress has done so far. -/
+`[ret id false]` alone, or effects of one `id` followed by its one state change, the listener events
+of that change and `ret id true` — followed, when `ph ≠ idle`, by what the invocation still in
+progress has done so far. -/
 inductive Shape : Phase → List Item → Prop
   | nil : Shape .idle []
   | refused {tr} (id : Nat) : Shape .idle tr → Shape .idle (.ret id false :: tr)
   | start {tr} (id : Nat) : Shape .idle tr → Shape (.running id) tr
   | eff {tr} (id : Nat) (e : Eff) : Shape (.running id) tr → Shape (.running id) (.eff id e :: tr)
-  | event {tr} (id : Nat) (a b : St) :
-      Shape (.running id) tr → Shape (.notified id) (.event id a b :: tr)
+  | trans {tr} (id : Nat) (a b : St) :
+      Shape (.running id) tr → Shape (.notified id) (.trans id a b :: tr)
+  | event {tr} (id : Nat) (li : Nat) (a b : St) :
+      Shape (.notified id) tr → Shape (.notified id) (.event id li a b :: tr)
   | done {tr} (id : Nat) : Shape (.notified id) tr → Shape .idle (.ret id true :: tr)
 
 /-- In a well-shaped trace a refusal is never directly preceded by an effect or an event: the
@@ -61,7 +64,14 @@ theorem Shape.refusal_isolated {ph : Phase} {tr : List Item} (h : Shape ph tr) :
     | cons p ps =>
       simp only [List.cons_append, List.cons.injEq] at heq
       exact ih ps id rest heq.2
-  | event id' a b h ih =>
+  | trans id' a b h ih =>
+    intro pre id rest heq
+    cases pre with
+    | nil => simp at heq
+    | cons p ps =>
+      simp only [List.cons_append, List.cons.injEq] at heq
+      exact ih ps id rest heq.2
+  | event id' li a b h ih =>
     intro pre id rest heq
     cases pre with
     | nil => simp at heq
@@ -76,158 +86,356 @@ theorem Shape.refusal_isolated {ph : Phase} {tr : List Item} (h : Shape ph tr) :
       simp only [List.cons_append, List.cons.injEq] at heq
       exact ih ps id rest heq.2
 
+/-! ### What the listeners are told, newest first -/
+
+/-- the state changes in a trace, newest first -/
+def transNF (tr : List Item) : List (St × St) := tr.filterMap Item.change
+
+/-- what listener `li` was told in a trace, newest first -/
+def toldNF (li : Nat) (tr : List Item) : List (St × St) := tr.filterMap (Item.toldTo li)
+
+@[simp] theorem transNF_nil : transNF [] = [] := rfl
+@[simp] theorem transNF_eff (id e tr) : transNF (.eff id e :: tr) = transNF tr := rfl
+@[simp] theorem transNF_ret (id ok tr) : transNF (.ret id ok :: tr) = transNF tr := rfl
+@[simp] theorem transNF_event (id l a b tr) : transNF (.event id l a b :: tr) = transNF tr := rfl
+@[simp] theorem transNF_trans (id a b tr) : transNF (.trans id a b :: tr) = (a, b) :: transNF tr := rfl
+@[simp] theorem toldNF_nil (li) : toldNF li [] = [] := rfl
+@[simp] theorem toldNF_eff (li id e tr) : toldNF li (.eff id e :: tr) = toldNF li tr := rfl
+@[simp] theorem toldNF_ret (li id ok tr) : toldNF li (.ret id ok :: tr) = toldNF li tr := rfl
+@[simp] theorem toldNF_trans (li id a b tr) : toldNF li (.trans id a b :: tr) = toldNF li tr := rfl
+theorem toldNF_event_same (li id a b tr) :
+    toldNF li (.event id li a b :: tr) = (a, b) :: toldNF li tr := by
+  simp [toldNF, Item.toldTo]
+theorem toldNF_event_other (li l id a b tr) (h : l ≠ li) :
+    toldNF li (.event id l a b :: tr) = toldNF li tr := by
+  simp [toldNF, Item.toldTo, h]
+
+/-- newest-first list of state changes that leads from `s0` to `cur` -/
+def ChainNF (s0 : St) : St → List (St × St) → Prop
+  | cur, [] => cur = s0
+  | cur, (a, b) :: r => b = cur ∧ ChainNF s0 a r
+
+theorem follows_append (s : St) (l : List (St × St)) (a b : St) :
+    follows s (l ++ [(a, b)]) =
+      match follows s l with
+      | some e => if a = e then some b else none
+      | none => none := by
+  induction l generalizing s with
+  | nil => simp [follows]
+  | cons p r ih =>
+    obtain ⟨a', b'⟩ := p
+    simp only [List.cons_append, follows]
+    split
+    · exact ih b'
+    · rfl
+
+theorem ChainNF.follows {s0 : St} : ∀ {cur : St} {l : List (St × St)}, ChainNF s0 cur l →
+    follows s0 l.reverse = some cur := by
+  intro cur l
+  induction l generalizing cur with
+  | nil => intro h; simp only [ChainNF] at h; simp [Transfer.follows, h]
+  | cons p r ih =>
+    obtain ⟨a, b⟩ := p
+    intro h
+    simp only [ChainNF] at h
+    rw [List.reverse_cons, follows_append, ih h.2]
+    simp [h.1]
+
 /-! ### Invariant of the lock/dispatch model -/
 
 /-- all listener events so far are documented edges -/
 def EventsOk (d : Dir) (tr : List Item) : Prop :=
-  ∀ id a b, Item.event id a b ∈ tr → edge d a b = true
+  ∀ id li a b, Item.event id li a b ∈ tr → edge d a b = true
+
+/-- all state changes so far are documented edges -/
+def TransOk (d : Dir) (tr : List Item) : Prop :=
+  ∀ id a b, Item.trans id a b ∈ tr → edge d a b = true
 
 def phaseOf : Option Pending → Phase
   | none => .idle
   | some p => if p.notified then .notified p.call.id else .running p.call.id
 
-/-- Invariant: events are edges; the trace is well shaped, with the suspended lock holder (if any)
-as the invocation in progress; the transition a holder has not yet made is an edge **from the
-current state**. -/
-structure Inv (cfg : Cfg) (x : XState) : Prop where
+/-- Invariant (`s0` = the state the run started in): events and state changes are edges; the trace is
+well shaped, with the suspended lock holder (if any) as the invocation in progress; the transition a
+holder has not yet made is an edge **from the current state**; the state changes lead from `s0` to
+the current state; while no listener loop is in progress every listener has been told exactly the
+state changes; while the lock holder is suspended inside listener `pos`, the listeners up to `pos`
+have been told all of them and the later ones all but the newest, which is `(old, current state)`. -/
+structure Inv (cfg : Cfg) (s0 : St) (x : XState) : Prop where
   events : EventsOk cfg.dir x.trace
+  transOk : TransOk cfg.dir x.trace
   shape : Shape (phaseOf x.holder) x.trace
   pending : ∀ p, x.holder = some p → p.notified = false → edge cfg.dir x.cur p.target = true
+  chain : ChainNF s0 x.cur (transNF x.trace)
+  quiet : (∀ p, x.holder = some p → p.notified = false) →
+    ∀ li, li < cfg.listeners.length → toldNF li x.trace = transNF x.trace
+  telling : ∀ p, x.holder = some p → p.notified = true →
+    p.pos < cfg.listeners.length ∧ edge cfg.dir p.old x.cur = true ∧
+    (∀ li, li ≤ p.pos → toldNF li x.trace = transNF x.trace) ∧
+    (∀ li, p.pos < li → li < cfg.listeners.length →
+      transNF x.trace = (p.old, x.cur) :: toldNF li x.trace)
 
-theorem runEffs_inv (cfg : Cfg) (c : Call) (t : St) (effs : List Eff) :
-    ∀ (force : Bool) (x : XState), EventsOk cfg.dir x.trace → Shape (.running c.id) x.trace →
-      edge cfg.dir x.cur t = true → Inv cfg (runEffs cfg c t effs force x) := by
-  induction effs with
+theorem notifyFrom_inv (cfg : Cfg) (s0 : St) (c : Call) (old : St) :
+    ∀ (gs : List Bool) (pos : Nat) (x : XState), pos + gs.length = cfg.listeners.length →
+      EventsOk cfg.dir x.trace → TransOk cfg.dir x.trace → Shape (.notified c.id) x.trace →
+      edge cfg.dir old x.cur = true → ChainNF s0 x.cur (transNF x.trace) →
+      (∀ li, li < pos → toldNF li x.trace = transNF x.trace) →
+      (∀ li, pos ≤ li → li < cfg.listeners.length →
+        transNF x.trace = (old, x.cur) :: toldNF li x.trace) →
+      Inv cfg s0 (notifyFrom c old gs pos x) := by
+  intro gs
+  induction gs with
   | nil =>
-    intro force x hev hsh hedge
-    unfold runEffs
+    intro pos x hlen hev htr hsh hedge hch hlt hge
+    simp only [List.length_nil, Nat.add_zero] at hlen
+    unfold notifyFrom
+    refine ⟨?_, ?_, ?_, ?_, ?_, ?_, ?_⟩
+    · intro id li a b hmem
+      simp only [List.mem_cons] at hmem
+      rcases hmem with h | h
+      · cases h
+      · exact hev id li a b h
+    · intro id a b hmem
+      simp only [List.mem_cons] at hmem
+      rcases hmem with h | h
+      · cases h
+      · exact htr id a b h
+    · simpa [phaseOf] using Shape.done c.id hsh
+    · intro p hp; simp at hp
+    · simpa using hch
+    · intro _ li hli
+      simpa using hlt li (by omega)
+    · intro p hp; simp at hp
+  | cons g gs ih =>
+    intro pos x hlen hev htr hsh hedge hch hlt hge
+    simp only [List.length_cons] at hlen
+    have hev' : EventsOk cfg.dir (.event c.id pos old x.cur :: x.trace) := by
+      intro id li a b hmem
+      simp only [List.mem_cons] at hmem
+      rcases hmem with h | h
+      · cases h; exact hedge
+      · exact hev id li a b h
+    have htr' : TransOk cfg.dir (.event c.id pos old x.cur :: x.trace) := by
+      intro id a b hmem
+      simp only [List.mem_cons] at hmem
+      rcases hmem with h | h
+      · cases h
+      · exact htr id a b h
+    have hle : ∀ li, li ≤ pos →
+        toldNF li (.event c.id pos old x.cur :: x.trace) = transNF (.event c.id pos old x.cur :: x.trace) := by
+      intro li hli
+      rcases Nat.lt_or_eq_of_le hli with h | h
+      · rw [toldNF_event_other _ _ _ _ _ _ (by omega), transNF_event]; exact hlt li h
+      · subst h
+        rw [toldNF_event_same, transNF_event]
+        exact (hge li (Nat.le_refl _) (by omega)).symm
+    have hgt : ∀ li, pos < li → li < cfg.listeners.length →
+        transNF (.event c.id pos old x.cur :: x.trace)
+          = (old, x.cur) :: toldNF li (.event c.id pos old x.cur :: x.trace) := by
+      intro li h1 h2
+      rw [toldNF_event_other _ _ _ _ _ _ (by omega), transNF_event]
+      exact hge li (by omega) h2
+    unfold notifyFrom
+    dsimp only
     split
-    · refine ⟨?_, ?_, ?_⟩
-      · intro id a b hmem
-        simp only [List.mem_cons] at hmem
-        rcases hmem with h | h
-        · cases h; exact hedge
-        · exact hev id a b h
-      · simpa [phaseOf] using Shape.event c.id x.cur t hsh
+    · refine ⟨hev', htr', ?_, ?_, ?_, ?_, ?_⟩
+      · simpa [phaseOf] using Shape.event c.id pos old x.cur hsh
       · intro p hp hn
         simp only [Option.some.injEq] at hp
         subst hp
         simp at hn
-    · refine ⟨?_, ?_, ?_⟩
-      · intro id a b hmem
-        simp only [List.mem_cons] at hmem
-        rcases hmem with h | h | h
-        · cases h
-        · cases h; exact hedge
-        · exact hev id a b h
-      · simpa [phaseOf] using Shape.done c.id (Shape.event c.id x.cur t hsh)
-      · intro p hp; simp at hp
+      · simpa using hch
+      · intro h li _
+        have := h _ rfl
+        simp at this
+      · intro p hp _
+        simp only [Option.some.injEq] at hp
+        subst hp
+        exact ⟨by dsimp only; omega, hedge, hle, hgt⟩
+    · refine ih (pos + 1) { x with trace := .event c.id pos old x.cur :: x.trace } (by omega) hev' htr'
+        (Shape.event c.id pos old x.cur hsh) hedge (by simpa using hch) ?_ ?_
+      · intro li hli; exact hle li (by omega)
+      · intro li h1 h2; exact hgt li (by omega) h2
+
+theorem runEffs_inv (cfg : Cfg) (s0 : St) (c : Call) (t : St) (effs : List Eff) :
+    ∀ (force : Bool) (x : XState), EventsOk cfg.dir x.trace → TransOk cfg.dir x.trace →
+      Shape (.running c.id) x.trace → edge cfg.dir x.cur t = true →
+      ChainNF s0 x.cur (transNF x.trace) →
+      (∀ li, li < cfg.listeners.length → toldNF li x.trace = transNF x.trace) →
+      Inv cfg s0 (runEffs cfg c t effs force x) := by
+  induction effs with
+  | nil =>
+    intro force x hev htr hsh hedge hch hq
+    unfold runEffs
+    apply notifyFrom_inv cfg s0 c x.cur cfg.listeners 0 _ (by simp)
+    · intro id li a b hmem
+      simp only [List.mem_cons] at hmem
+      rcases hmem with h | h
+      · cases h
+      · exact hev id li a b h
+    · intro id a b hmem
+      simp only [List.mem_cons] at hmem
+      rcases hmem with h | h
+      · cases h; exact hedge
+      · exact htr id a b h
+    · exact Shape.trans c.id x.cur t hsh
+    · exact hedge
+    · show ChainNF s0 t ((x.cur, t) :: transNF x.trace)
+      exact ⟨rfl, hch⟩
+    · intro li hli; omega
+    · intro li _ hli
+      simp only [transNF_trans, toldNF_trans, hq li hli]
   | cons e es ih =>
-    intro force x hev hsh hedge
+    intro force x hev htr hsh hedge hch hq
     unfold runEffs
     split
-    · refine ⟨hev, ?_, ?_⟩
+    · refine ⟨hev, htr, ?_, ?_, hch, fun _ => hq, ?_⟩
       · simpa [phaseOf] using hsh
       · intro p hp _
         simp only [Option.some.injEq] at hp
         subst hp
         exact hedge
+      · intro p hp hn
+        simp only [Option.some.injEq] at hp
+        subst hp
+        simp at hn
     · apply ih
+      · intro id li a b hmem
+        simp only [List.mem_cons] at hmem
+        rcases hmem with h | h
+        · cases h
+        · exact hev id li a b h
       · intro id a b hmem
         simp only [List.mem_cons] at hmem
         rcases hmem with h | h
         · cases h
-        · exact hev id a b h
+        · exact htr id a b h
       · exact Shape.eff c.id e hsh
       · exact hedge
+      · simpa using hch
+      · intro li hli; simpa using hq li hli
 
-theorem grant_inv (hts : TableSound) (cfg : Cfg) (hm : cfg.mode = .current) (c : Call) (x : XState)
-    (hinv : Inv cfg x) (hfree : x.holder = none) : Inv cfg (grant cfg c x) := by
+theorem Inv.quiet_of_free {cfg : Cfg} {s0 : St} {x : XState} (hinv : Inv cfg s0 x)
+    (hfree : x.holder = none) :
+    ∀ li, li < cfg.listeners.length → toldNF li x.trace = transNF x.trace :=
+  hinv.quiet (by intro p hp; simp [hfree] at hp)
+
+theorem grant_inv (hts : TableSound) (cfg : Cfg) (s0 : St) (hm : cfg.mode = .current) (c : Call)
+    (x : XState) (hinv : Inv cfg s0 x) (hfree : x.holder = none) : Inv cfg s0 (grant cfg c x) := by
   have hsh : Shape .idle x.trace := by simpa [hfree, phaseOf] using hinv.shape
   unfold grant
   split
-  · refine ⟨?_, ?_, ?_⟩
+  · refine ⟨?_, ?_, ?_, ?_, ?_, ?_, ?_⟩
+    · intro id li a b hmem
+      simp only [List.mem_cons] at hmem
+      rcases hmem with h | h
+      · cases h
+      · exact hinv.events id li a b h
     · intro id a b hmem
       simp only [List.mem_cons] at hmem
       rcases hmem with h | h
       · cases h
-      · exact hinv.events id a b h
+      · exact hinv.transOk id a b h
     · simpa [hfree, phaseOf] using Shape.refused c.id hsh
+    · intro p hp; simp [hfree] at hp
+    · simpa using hinv.chain
+    · intro _ li hli; simpa using hinv.quiet_of_free hfree li hli
     · intro p hp; simp [hfree] at hp
   · next t effs heq =>
     have hd : dispatchOn cfg x c = x.cur := by simp [dispatchOn, hm]
     rw [hd] at heq
-    exact runEffs_inv cfg c t effs false x hinv.events (Shape.start c.id hsh) (hts _ _ _ _ _ heq)
+    exact runEffs_inv cfg s0 c t effs false x hinv.events hinv.transOk (Shape.start c.id hsh)
+      (hts _ _ _ _ _ heq) hinv.chain (hinv.quiet_of_free hfree)
 
-theorem drain_inv (hts : TableSound) (cfg : Cfg) (hm : cfg.mode = .current) (cs : List Call) :
-    ∀ x : XState, Inv cfg x → x.holder = none → Inv cfg (drain cfg cs x) := by
+theorem drain_inv (hts : TableSound) (cfg : Cfg) (s0 : St) (hm : cfg.mode = .current)
+    (cs : List Call) :
+    ∀ x : XState, Inv cfg s0 x → x.holder = none → Inv cfg s0 (drain cfg cs x) := by
   induction cs with
-  | nil => intro x hinv _; exact ⟨hinv.events, hinv.shape, hinv.pending⟩
+  | nil =>
+    intro x hinv _
+    exact ⟨hinv.events, hinv.transOk, hinv.shape, hinv.pending, hinv.chain, hinv.quiet, hinv.telling⟩
   | cons c cs ih =>
     intro x hinv hfree
-    have hg := grant_inv hts cfg hm c x hinv hfree
+    have hg := grant_inv hts cfg s0 hm c x hinv hfree
     unfold drain
     dsimp only
     split
-    · exact ⟨hg.events, hg.shape, hg.pending⟩
+    · exact ⟨hg.events, hg.transOk, hg.shape, hg.pending, hg.chain, hg.quiet, hg.telling⟩
     · next hnone => exact ih _ hg hnone
 
-theorem arrive_inv (hts : TableSound) (cfg : Cfg) (hm : cfg.mode = .current) (c : Call) (x : XState)
-    (hinv : Inv cfg x) : Inv cfg (arrive cfg c x) := by
+theorem arrive_inv (hts : TableSound) (cfg : Cfg) (s0 : St) (hm : cfg.mode = .current) (c : Call)
+    (x : XState) (hinv : Inv cfg s0 x) : Inv cfg s0 (arrive cfg c x) := by
   unfold arrive
   dsimp only
   split
-  · next p hp => exact ⟨hinv.events, hinv.shape, hinv.pending⟩
-  · next hnone => exact drain_inv hts cfg hm _ x hinv hnone
+  · next p hp =>
+    exact ⟨hinv.events, hinv.transOk, hinv.shape, hinv.pending, hinv.chain, hinv.quiet, hinv.telling⟩
+  · next hnone => exact drain_inv hts cfg s0 hm _ x hinv hnone
 
-theorem step_inv (hts : TableSound) (cfg : Cfg) (hm : cfg.mode = .current) (x : XState) (op : XOp)
-    (hinv : Inv cfg x) : Inv cfg (step cfg x op) := by
+theorem step_inv (hts : TableSound) (cfg : Cfg) (s0 : St) (hm : cfg.mode = .current) (x : XState)
+    (op : XOp) (hinv : Inv cfg s0 x) : Inv cfg s0 (step cfg x op) := by
+  have same : ∀ y : XState, y.cur = x.cur → y.holder = x.holder → y.trace = x.trace → Inv cfg s0 y := by
+    intro y h1 h2 h3
+    obtain ⟨a, b, c, d, e, f, g⟩ := hinv
+    exact ⟨h3 ▸ a, h3 ▸ b, h2 ▸ h3 ▸ c, h1 ▸ h2 ▸ d, h1 ▸ h3 ▸ e, h2 ▸ h3 ▸ f, h1 ▸ h2 ▸ h3 ▸ g⟩
   cases op with
-  | create c => exact ⟨hinv.events, hinv.shape, hinv.pending⟩
+  | create c => exact same _ rfl rfl rfl
   | start id =>
     simp only [step]
     split
     · exact hinv
-    · exact arrive_inv hts cfg hm _ _ ⟨hinv.events, hinv.shape, hinv.pending⟩
-  | call c => exact arrive_inv hts cfg hm _ _ hinv
+    · exact arrive_inv hts cfg s0 hm _ _ (same _ rfl rfl rfl)
+  | call c => exact arrive_inv hts cfg s0 hm _ _ hinv
   | resume =>
     simp only [step]
     split
     · exact hinv
     · next p hp =>
-      have hr : Inv cfg (if p.notified then
-            { x with holder := none, trace := .ret p.call.id true :: x.trace }
+      have hr : Inv cfg s0 (if p.notified then
+            notifyFrom p.call p.old (cfg.listeners.drop (p.pos + 1)) (p.pos + 1) x
           else runEffs cfg p.call p.target p.rest true x) := by
         split
         · next hn =>
           have hsh : Shape (.notified p.call.id) x.trace := by simpa [hp, phaseOf, hn] using hinv.shape
-          refine ⟨?_, ?_, ?_⟩
-          · intro id a b hmem
-            simp only [List.mem_cons] at hmem
-            rcases hmem with h | h
-            · cases h
-            · exact hinv.events id a b h
-          · simpa [phaseOf] using Shape.done p.call.id hsh
-          · intro q hq; simp at hq
+          obtain ⟨hpos, hedge, hle, hgt⟩ := hinv.telling p hp hn
+          apply notifyFrom_inv cfg s0 p.call p.old _ (p.pos + 1) x
+            (by rw [List.length_drop]; omega) hinv.events hinv.transOk hsh hedge hinv.chain
+          · intro li hli; exact hle li (by omega)
+          · intro li h1 h2; exact hgt li (by omega) h2
         · next hn =>
           have hn' : p.notified = false := by simpa using hn
           have hsh : Shape (.running p.call.id) x.trace := by simpa [hp, phaseOf, hn'] using hinv.shape
-          exact runEffs_inv cfg p.call p.target p.rest true x hinv.events hsh (hinv.pending p hp hn')
+          refine runEffs_inv cfg s0 p.call p.target p.rest true x hinv.events hinv.transOk hsh
+            (hinv.pending p hp hn') hinv.chain (hinv.quiet ?_)
+          intro q hq
+          rw [hp] at hq
+          simp only [Option.some.injEq] at hq
+          subst hq
+          exact hn'
       split
       · exact hr
-      · next hnone => exact drain_inv hts cfg hm _ _ hr hnone
-  | spawn => exact ⟨hinv.events, hinv.shape, hinv.pending⟩
-  | setFile => exact ⟨hinv.events, hinv.shape, hinv.pending⟩
-  | tick => exact ⟨hinv.events, hinv.shape, hinv.pending⟩
+      · next hnone => exact drain_inv hts cfg s0 hm _ _ hr hnone
+  | spawn => exact same _ rfl rfl rfl
+  | setFile => exact same _ rfl rfl rfl
+  | tick => exact same _ rfl rfl rfl
 
-theorem run_inv (hts : TableSound) (cfg : Cfg) (hm : cfg.mode = .current) (ops : List XOp) :
-    ∀ x : XState, Inv cfg x → Inv cfg (run cfg x ops) := by
+theorem run_inv (hts : TableSound) (cfg : Cfg) (s0 : St) (hm : cfg.mode = .current) (ops : List XOp) :
+    ∀ x : XState, Inv cfg s0 x → Inv cfg s0 (run cfg x ops) := by
   induction ops with
   | nil => intro x h; exact h
-  | cons op ops ih => intro x h; exact ih _ (step_inv hts cfg hm x op h)
+  | cons op ops ih => intro x h; exact ih _ (step_inv hts cfg s0 hm x op h)
 
-theorem init_inv (cfg : Cfg) (s : St) (f : Fields) : Inv cfg (init s f) :=
-  ⟨by intro id a b h; simp [init] at h, by simpa [init, phaseOf] using Shape.nil,
-   by intro p h; simp [init] at h⟩
+theorem init_inv (cfg : Cfg) (s : St) (f : Fields) : Inv cfg s (init s f) :=
+  ⟨by intro id li a b h; simp [init] at h, by intro id a b h; simp [init] at h,
+   by simpa [init, phaseOf] using Shape.nil, by intro p h; simp [init] at h,
+   by simp [init, ChainNF], by intro _ li _; simp [init], by intro p h; simp [init] at h⟩
+
+/-! ### From the newest-first bookkeeping to the observation functions of the model -/
+
+theorem told_eq (li : Nat) (x : XState) : told li x = (toldNF li x.trace).reverse := by
+  simp only [told, toldNF, List.filterMap_reverse]
+
+theorem transitions_eq (x : XState) : transitions x = (transNF x.trace).reverse := by
+  simp only [transitions, transNF, List.filterMap_reverse]
 
 end AioslskVerif.Transfer
